@@ -103,6 +103,10 @@ def _call(case, S, C, qarg, marg, eps):
     return mol, es, sett
 
 
+def _is_rejection(e):
+    return any(k in str(e) for k in ("Maximum number of roots", "A-B matrix has negative eigenvalues"))
+
+
 def _merge(dst, src):
     for k, v in src.items():
         if not (v <= dst.get(k, -1.0)):
@@ -146,7 +150,8 @@ def run_case(case):
     try:
         mol, es, sett = _call(case, Sx, Cx, qarg, marg, case["eps"])
     except Exception as e:
-        if exc and "Maximum number of roots" in str(e):
+        if exc and _is_rejection(e):
+            # the package refuses loudly (too many roots / RPA triplet instability): nothing was published
             return {"ineligible": "excited-state request rejected by the package", "monitors": {"rejected": 1}}
         raise
     mon["calls"] += 1
@@ -185,8 +190,14 @@ def run_case(case):
                 step = np.zeros(C.shape)
             with torch.no_grad():
                 mol.coordinates.add_(torch.as_tensor(step) * mask)
-            with run.quiet():
-                es(mol, P0=mol.dm)
+            try:
+                with run.quiet():
+                    es(mol, P0=mol.dm)
+            except Exception as e:
+                if exc and _is_rejection(e):
+                    mon["rejected"] += 1
+                    break
+                raise
             mon["repeat_calls"] += 1
             judge(mol, es, sett, k + 1)
         cells.append("repeat/%s/kick%g" % (case["method"], rep["kick"]))
@@ -194,8 +205,16 @@ def run_case(case):
     if case.get("translate") is not None and dip0 is not None:
         t = np.asarray(case["translate"], float)
         Ct = np.asarray(C, float) + t * (np.asarray(S) > 0)[..., None]     # padding coordinates stay where they are
-        mol2, es2, sett2 = _call(case, S[0] if single else S, Ct[0] if single else Ct, qarg, marg, case["eps"])
+        try:
+            mol2, es2, sett2 = _call(case, S[0] if single else S, Ct[0] if single else Ct, qarg, marg, case["eps"])
+        except Exception as e:
+            if exc and _is_rejection(e):
+                mon["rejected"] += 1
+                mol2 = None
+            else:
+                raise
         mon["calls"] += 1
+    if case.get("translate") is not None and dip0 is not None and mol2 is not None:
         dip1 = run.npy(mol2.dipole)
         nc1 = np.asarray(run.npy(es2.notconverged), bool).reshape(-1)
         factor = obs14.unit_factor()
